@@ -118,11 +118,30 @@ pub fn expr(e: &J) -> String {
             }
         }
         "call" => {
-            let args: Vec<String> = e["args"]
+            let mut args: Vec<String> = e["args"]
                 .as_array()
                 .map(|a| a.iter().map(expr).collect())
                 .unwrap_or_default();
-            format!("({} {})", e["f"].as_str().unwrap_or(""), args.join(" "))
+            let named: Vec<String> = e["named"]
+                .as_array()
+                .map(|a| a.iter().map(|n| format!("{}:{}", n["n"].as_str().unwrap_or(""), expr(&n["e"]))).collect())
+                .unwrap_or_default();
+            let f = e["f"].as_str().unwrap_or("");
+            if e["style"] == "pipe" && !args.is_empty() {
+                // x | f a b  ==  f a b x
+                let last = args.pop().unwrap();
+                let mut rest = named.clone();
+                rest.extend(args);
+                format!("({} | {} {})", last, f, rest.join(" ")).replace(" )", ")")
+            } else {
+                let mut all = args;
+                // named arguments may stand anywhere; put them after the first positional one
+                for (i, n) in named.into_iter().enumerate() {
+                    let pos = (1 + i).min(all.len());
+                    all.insert(pos, n);
+                }
+                format!("({} {})", f, all.join(" ")).replace(" )", ")")
+            }
         }
         "eqcol" => format!("=={}", ident(e["name"].as_str().unwrap_or(""))),
         _ => "null".into(),
@@ -163,7 +182,7 @@ fn bound(n: i64) -> String {
 pub fn step(s: &J) -> String {
     match s["op"].as_str().unwrap_or("") {
         "from" => {
-            let t = ident(s["t"].as_str().unwrap_or("t"));
+            let t = s["t"].as_str().unwrap_or("t").split('.').map(ident).collect::<Vec<_>>().join(".");
             let a = s["alias"].as_str().unwrap_or("");
             if a.is_empty() {
                 format!("from {t}")
@@ -276,10 +295,48 @@ pub fn schema_decl(schema: &J) -> String {
     out
 }
 
+fn decl(d: &J) -> String {
+    let name = d["short"].as_str().or(d["name"].as_str()).unwrap_or("x");
+    match d["kind"].as_str().unwrap_or("") {
+        "let" => match d["surface"].as_str().unwrap_or("let") {
+            "into" => format!("{}\ninto {}\n", pipe(&d["steps"], "\n"), ident(name)),
+            _ => format!("let {} = (\n  {}\n)\n", ident(name), pipe(&d["steps"], "\n  ")),
+        },
+        "func" => {
+            let mut ps: Vec<String> = d["params"].as_array().map(|a| a.iter().map(|p| p.as_str().unwrap_or("").to_string()).collect()).unwrap_or_default();
+            if let Some(ns) = d["named"].as_array() {
+                for n in ns {
+                    ps.push(format!("{}:{}", n["n"].as_str().unwrap_or(""), expr(&n["d"])));
+                }
+            }
+            format!("let {} = {} -> {}\n", ident(name), ps.join(" "), expr(&d["body"]))
+        }
+        _ => String::new(),
+    }
+}
+
 pub fn program(p: &J, schema: &J) -> String {
     let mut out = String::new();
     if p["decl"] == true {
         out.push_str(&schema_decl(schema));
+    }
+    if let Some(ds) = p["decls"].as_array() {
+        let mut i = 0;
+        while i < ds.len() {
+            let m = ds[i]["module"].as_str().unwrap_or("");
+            if m.is_empty() {
+                out.push_str(&decl(&ds[i]));
+                i += 1;
+            } else {
+                // consecutive members of one module form one block
+                let mut body = String::new();
+                while i < ds.len() && ds[i]["module"].as_str().unwrap_or("") == m {
+                    body.push_str(&decl(&ds[i]));
+                    i += 1;
+                }
+                out.push_str(&format!("module {} {{\n  {}\n}}\n", ident(m), body.trim_end().replace('\n', "\n  ")));
+            }
+        }
     }
     out.push_str(&pipe(&p["steps"], "\n"));
     out.push('\n');
